@@ -28,7 +28,9 @@
    UDP datagrams (indistinguishable from the application sending them that way).
 
    TLC prints every finished behaviour as one JSON line ("@@J"): exhaustively for the
-   tiny configuration WireMC.cfg, by seeded simulation (WireGen*.cfg) beyond. *)
+   tiny configuration (WireMC.cfg: 1 conversation x 2 messages x 2 segments; WireMCq.cfg
+   is the same with at most one duplicate or swap), by seeded simulation beyond
+   (WireGen.tla; the regimes are the constant sets in lib/fam_wire.py REGIMES). *)
 EXTENDS Integers, Sequences, FiniteSets, TLC, Json
 
 CONSTANTS
@@ -41,6 +43,7 @@ CONSTANTS
     MaxDup,     \* duplicated segments per behaviour
     MaxDisp,    \* displacement bound of a reordered segment (positions)
     MaxSwap,    \* swaps per behaviour
+    MaxPerturb, \* duplicates + swaps per behaviour
     MaxCuts,    \* file cuts per behaviour
     MinCuts,    \* a behaviour only counts as finished with at least that many cuts
     MaxAck,     \* pure ACK packets per behaviour
@@ -153,6 +156,7 @@ Seg(k, d, m, f, t, o) == [k |-> k, d |-> d, m |-> m, f |-> f, t |-> t, o |-> o, 
 Pkt(c, s, dt, dup) == [c |-> c, k |-> s.k, d |-> s.d, m |-> s.m, f |-> s.f, t |-> s.t, o |-> s.o,
                        file |-> curFile, dt |-> dt, dup |-> dup, open |-> FALSE, at |-> clock + dt]
 
+NFiles       == IF wire = <<>> THEN 0 ELSE Last(wire).file     \* capture files that hold packets
 Busy(c)      == phase[c] \notin {"new", "done"} \/ flight[c] # <<>>
 Finished(c)  == phase[c] = "done" /\ flight[c] = <<>>
 AllEmitted   == \A c \in Convs : Finished(c)
@@ -241,7 +245,7 @@ Step(e) ==
             /\ last' = [last EXCEPT ![e.c] = clock + e.dt]
             /\ Same(<<cv, phase, rem, acked, ocnt, active, curFile, cnt, pending, batches>>)
       [] e.a = "Dup" ->
-            /\ e.c = active /\ ~Finished(e.c) /\ cnt.dup < MaxDup /\ TimeOK(e.c, e.dt)
+            /\ e.c = active /\ ~Finished(e.c) /\ cnt.dup < MaxDup /\ cnt.dup + cnt.swap < MaxPerturb /\ TimeOK(e.c, e.dt)
             /\ e.i \in DOMAIN wire /\ wire[e.i].c = e.c /\ wire[e.i].k = "data" /\ ~wire[e.i].dup
             /\ wire[e.i].m >= Len(Msgs(e.c)) - 1                 \* a recent one
             /\ wire' = Append(wire, [wire[e.i] EXCEPT !.file = curFile, !.dt = e.dt, !.dup = TRUE, !.at = clock + e.dt])
@@ -250,7 +254,7 @@ Step(e) ==
             /\ cnt' = [cnt EXCEPT !.dup = @ + 1]
             /\ Same(<<cv, phase, rem, acked, ocnt, flight, active, curFile, pending, batches>>)
       [] e.a = "Swap" ->
-            /\ e.c = active /\ cnt.swap < MaxSwap /\ e.i \in 1 .. (Len(flight[e.c]) - 1)
+            /\ e.c = active /\ cnt.swap < MaxSwap /\ cnt.dup + cnt.swap < MaxPerturb /\ e.i \in 1 .. (Len(flight[e.c]) - 1)
             /\ LET a == flight[e.c][e.i] b == flight[e.c][e.i + 1] IN
                /\ a.d = b.d /\ a.k = "data" /\ b.k \in {"data", "fin"}
                /\ a.disp < MaxDisp /\ b.disp > -MaxDisp
@@ -271,8 +275,8 @@ Step(e) ==
             /\ cnt' = [cnt EXCEPT !.bulk = @ + 1]
             /\ Same(<<cv, phase, rem, acked, ocnt, flight, active, curFile, last, pending, batches>>)
       [] e.a = "Handover" ->          \* the captures are complete: everything becomes importable
-            /\ AllEmitted /\ pending = {} /\ batches = <<>> /\ cnt.cut >= MinCuts /\ BatchMode # "none"
-            /\ pending' = 1 .. curFile
+            /\ AllEmitted /\ pending = {} /\ batches = <<>> /\ NFiles - 1 >= MinCuts /\ BatchMode # "none"
+            /\ pending' = 1 .. NFiles
             /\ Same(<<cv, phase, rem, acked, ocnt, flight, wire, active, curFile, clock, last, cnt, batches>>)
       [] e.a = "Batch" ->
             /\ pending # {} /\ Range(e.files) \subseteq pending /\ e.files # <<>>
@@ -317,10 +321,10 @@ Next == \E e \in AllEvents : Step(e)
 Spec == Init /\ [][Next]_vars
 
 \* ------------------------------------------------------------------ output
-Done == /\ AllEmitted /\ cnt.cut >= MinCuts
+Done == /\ AllEmitted /\ NFiles - 1 >= MinCuts
         /\ IF BatchMode = "none" THEN TRUE ELSE batches # <<>> /\ pending = {}
 
-Schedule == [convs |-> cv, wire |-> wire, nfiles |-> curFile, batches |-> batches,
+Schedule == [convs |-> cv, wire |-> wire, nfiles |-> NFiles, batches |-> batches,
              exp |-> [c \in Convs |-> Exp(c)], cnt |-> cnt]
 PrintSchedule == Done => PrintT("@@J" \o ToJson(Schedule))
 
